@@ -88,6 +88,9 @@ func (e *env) take(op string, node int) (Fault, bool) {
 				e.soft++
 			case "race":
 				// another writer, not a failure: the call has to succeed all the same
+			case "mid":
+				// counts when (and if) the stream is read up to the point where it breaks: a destination that
+				// answers "already exists" without reading it never meets the failure
 			default:
 				e.fired++
 			}
@@ -99,12 +102,20 @@ func (e *env) take(op string, node int) (Fault, bool) {
 
 // breaking is a fetched stream that fails after `left` bytes.
 type breaking struct {
-	rc   io.ReadCloser
-	left int64
+	rc    io.ReadCloser
+	left  int64
+	e     *env
+	broke bool
 }
 
 func (b *breaking) Read(p []byte) (int, error) {
 	if b.left <= 0 {
+		if !b.broke {
+			b.broke = true
+			b.e.mu.Lock()
+			b.e.fired++
+			b.e.mu.Unlock()
+		}
 		return 0, ErrInjected
 	}
 	if int64(len(p)) > b.left {
@@ -173,8 +184,14 @@ func (w *srcW) Fetch(ctx context.Context, d ocispec.Descriptor) (io.ReadCloser, 
 			rc, err := w.und.Fetch(ctx, d)
 			if err == nil {
 				w.e.tr.Emit(map[string]any{"e": "fetchE", "n": n, "man": man, "err": false, "why": "midfault"})
-				return w.track(n, &breaking{rc: rc, left: d.Size / 2}), nil
+				return w.track(n, &breaking{rc: rc, left: d.Size / 2, e: w.e}), nil
 			}
+		}
+		if f.Phase == "mid" {
+			// the stream could not even be opened: an outright failure of the read
+			w.e.mu.Lock()
+			w.e.fired++
+			w.e.mu.Unlock()
 		}
 		w.e.tr.Emit(map[string]any{"e": "fetchE", "n": n, "man": man, "err": true, "why": "fault"})
 		return nil, ErrInjected
@@ -375,6 +392,13 @@ func (w *dstW) Push(ctx context.Context, d ocispec.Descriptor, r io.Reader) erro
 		perr := w.und.Push(ctx, d, io.MultiReader(bytes.NewReader(b), &failing{rerr}))
 		if perr == nil {
 			perr = rerr
+		}
+		if errors.Is(perr, errdef.ErrAlreadyExists) && errors.Is(rerr, ErrInjected) {
+			// the store answered "already exists" without reading: the break of the stream (met only by this wrapper's
+			// own read-ahead) is not a failure the library could have seen
+			w.e.mu.Lock()
+			w.e.fired--
+			w.e.mu.Unlock()
 		}
 		w.e.tr.Emit(map[string]any{"e": "pushE", "n": n, "r": "read", "has": w.has()})
 		return perr
